@@ -163,7 +163,7 @@ def g_prepare(P, tier, tmp, seed, infra):
         shared = sorted(_os.path.join(ddir, f) for f in _os.listdir(ddir) if f.startswith("zz_s_") and f.endswith(".go"))
         jobs.append({"name": "g_" + d, "moddir": moddir, "pkg": "vdesign/vh", "pkgdir": "vh", "pkgname": "vh", "harness_dir": "g",
                      "files": files, "support": ["zz_stubs.go"] + shared, "extra_decl": ["zz_decl_g.go"], "extra_replay": ["zz_replay_g.go"],
-                     "quick": P["quick"], "thorough": P["thorough"], "shards": P.get("shards", {})})
+                     "quick": P["quick"], "thorough": P["thorough"], "shards": P.get("shards", {}), "race": P.get("race_g", False)})
     return jobs
 
 
@@ -253,4 +253,31 @@ PROPS["C08"] = {
     "assumptions": [],
     "outside": ['recursive result types (the generator emits duplicate types for them, C01)', 'designs outside the catalogue (the generator cannot be executed on a symbolic design)', 'XML/gob/form/multipart bodies, websocket streaming, file servers', 'present-but-empty parameter texts'],
     "manifest": {"text": 'Translation validation of generated view projection (NewViewedX, newXView*, server response bodies per view, goa-view header, client decode + views-package validation + NewX): the solver decides that the wire document (inspected through its JSON member names) carries exactly the attributes of the selected view, recursively with per-attribute overrides and for collections, that the view name accompanies the response, that the client rebuilds equal in-view attributes and leaves out-of-view attributes unset, that the empty name means default, and that every undefined view label is refused.', "note": 'Trusted: gosym executor, z3, the hand-written oracle of each catalogue design; transport seams modelled as identity containers (encoding/json by tag name - real encoding/json in native replays -, url.Values, cookies, Basic auth). The generator runs for real on every run in a scratch module (replace goa => /repo); counterexamples and sampled witnesses are replayed natively against the generated code.'},
+}
+
+PROPS["C20"] = {
+    "level": "other",
+    "jobs": [
+        {"name": "pkg", "pkg": "goa.design/goa/v3/pkg", "pkgdir": "pkg", "pkgname": "goa", "harness_dir": "pkg",
+         "files": ["zz_verif_c20.go"], "quick": r"^VerifC20_", "thorough": r"^VerifC20T?_", "race": True},
+        {"name": "http", "pkg": "goa.design/goa/v3/http", "pkgdir": "http", "pkgname": "http", "harness_dir": "http",
+         "files": ["zz_verif_c15.go", "zz_verif_c20.go"], "quick": r"^VerifC20_", "thorough": r"^VerifC20T?_", "race": True},
+    ],
+    "prepare": g_prepare,
+    "designs": ["v1"],
+    "harness_tag": "c20",
+    "quick": r"^VerifC20_", "thorough": r"^VerifC20T?_",
+    "race_g": True,
+    "bounds": {"invocations": 2, "entry_points": ["pkg.ValidatePattern (cold and warm cache, same/different pattern)", "pkg.MergeErrors + validation error constructors", "http.ErrorEncoder closure (nil and custom formatter)",
+                                                  "http.ResponseEncoder/ResponseDecoder", "mounted muxer: ServeHTTP/Vars/ResolvePattern", "generated handler NewIntsHandler of design v1 (valid, invalid and failing requests mixed)"]},
+    "assumptions": ["sync.Mutex/RWMutex/atomic follow the Go memory model; two accesses are ordered iff they hold a common mutex, at least one in write mode, or both are atomic",
+                    "the two invocations are executed one after the other by the executor; conflicts are computed on the recorded accesses (loads, stores, map reads/writes of cells that existed before the invocations)"],
+    "outside": ["schedules of the Go scheduler at large, 3-64 goroutines", "chi internals beyond the accesses the two invocations perform, net/http itself", "StreamCanceler, SkipResponseWriter, websocket (goroutines, channels: unsupported by the executor)",
+                "samplers (atomic counter + mutex): not covered yet", "designs other than v1 for the generated-handler entry"],
+    "explanation": "Not a schedule exploration: for each per-request entry point the executor runs two invocations with independent symbolic inputs from one constructed state, records every access to pre-existing memory with the locks held, and the check asserts (a) no pair of accesses of the two invocations conflicts without a common ordering mutex (a conflict is replayed natively with two goroutines under go test -race), and (b) each invocation's observable result is a function of its own inputs only (decided by the SMT solver for all input values).",
+    "manifest": {
+        "text": "Partial. Sharing analysis by symbolic execution of two invocations per entry point (runtime helpers and one generated handler): absence of unordered conflicting accesses to state shared between requests, and per-request isolation of results for all input values. A reported conflict is confirmed by the Go race detector on a native two-goroutine replay before it is reported. It does not explore schedules or load.",
+        "note": "Trusted: gosym executor (access recording, lock model), z3, the race detector for confirmation. One genuine race found by this check (ErrorEncoder) was repaired, see known_findings.json.",
+        "technique": "bounded symbolic execution of two invocations from go/ssa with access/lockset recording; SMT decides the isolation assertions; conflicts replayed under go test -race",
+    },
 }
